@@ -169,57 +169,53 @@ CO_ERR CONmtHbConsActivate(CO_HBCONS *hbc, uint16_t time, uint8_t nodeid)
     CO_NMT     *nmt;
     CO_HBCONS  *act;
     CO_HBCONS  *prev;
-    CO_HBCONS  *found = 0;
 
     nmt = &(hbc->Node->Nmt);
+
+    /* a node-id is allowed in a single active consumer, only */
+    if (time > 0) {
+        act = nmt->HbCons;
+        while (act != 0) {
+            if (act->NodeId == nodeid) {
+                return (CO_ERR_OBJ_INCOMPATIBLE);
+            }
+            act = act->Next;
+        }
+    }
+
+    /* remove given consumer from the active chain */
     prev = 0;
     act  = nmt->HbCons;
-    while (act != 0) {
-        if (act->NodeId == nodeid) {
-            found = act;
-            break;
-        }
+    while ((act != 0) && (act != hbc)) {
         prev = act;
         act  = act->Next;
     }
-
-    if (found != 0) {
-        if (time > 0) {
-            result = CO_ERR_OBJ_INCOMPATIBLE;
+    if (act == hbc) {
+        if (prev == 0) {
+            nmt->HbCons = hbc->Next;
         } else {
-            if (hbc->Tmr >= 0) {
-                err = COTmrDelete(&nmt->Node->Tmr, hbc->Tmr);
-                if (err < 0) {
-                    result = CO_ERR_TMR_DELETE;
-                }
-            }
-            hbc->Time   = time;
-            hbc->NodeId = nodeid;
-            hbc->Tmr    = -1;
-            hbc->Event  = 0;
-            hbc->State  = CO_INVALID;
-            hbc->Node   = nmt->Node;
-            if (prev == 0) {
-                nmt->HbCons = hbc->Next;
-            } else {
-                prev->Next  = hbc->Next;
-            }
-            hbc->Next   = 0;
+            prev->Next  = hbc->Next;
         }
-    } else {
-        hbc->Time   = time;
-        hbc->NodeId = nodeid;
-        hbc->Tmr    = -1;
-        hbc->Event  = 0;
-        hbc->State  = CO_INVALID;
-        hbc->Node   = nmt->Node;
+        if (hbc->Tmr >= 0) {
+            err = COTmrDelete(&nmt->Node->Tmr, hbc->Tmr);
+            if (err < 0) {
+                result = CO_ERR_TMR_DELETE;
+            }
+        }
+    }
 
-        if (time > 0) {
-            hbc->Next   = nmt->HbCons;
-            nmt->HbCons = hbc;
-        } else {
-            hbc->Next   = 0;
-        }
+    hbc->Time   = time;
+    hbc->NodeId = nodeid;
+    hbc->Tmr    = -1;
+    hbc->Event  = 0;
+    hbc->State  = CO_INVALID;
+    hbc->Node   = nmt->Node;
+    hbc->Next   = 0;
+
+    /* add consumer to the active chain */
+    if (time > 0) {
+        hbc->Next   = nmt->HbCons;
+        nmt->HbCons = hbc;
     }
 
     return (result);
